@@ -20,6 +20,8 @@ package namedmutex
 
 import (
 	"sync"
+
+	"github.com/containerd/stargz-snapshotter/util/verifhook"
 )
 
 // NamedMutex wraps sync.Mutex and provides namespaced mutex.
@@ -44,7 +46,9 @@ func (nl *NamedMutex) Lock(name string) {
 	}
 	mu := nl.muMap[name]
 	nl.refMap[name]++
+	verifhook.Event("namedmutex.lock.sec", nl, name, mu)
 	nl.mu.Unlock()
+	verifhook.Gate("namedmutex.lock.acquire", nl, name)
 	mu.Lock()
 }
 
@@ -57,6 +61,8 @@ func (nl *NamedMutex) Unlock(name string) {
 		delete(nl.muMap, name)
 		delete(nl.refMap, name)
 	}
+	verifhook.Event("namedmutex.unlock.sec", nl, name, mu)
 	nl.mu.Unlock()
+	verifhook.Gate("namedmutex.unlock.release", nl, name)
 	mu.Unlock()
 }
